@@ -87,7 +87,7 @@ ARRAY_ALPHABET = [
 ]
 
 
-DISPS = ['sync', 'async', 'async-seq', 'async-wrapped']
+DISPS = ['sync', 'async', 'async-seq', 'async-wrapped', 'sync-custom', 'async-custom']
 
 
 def g2(ctx):
